@@ -99,6 +99,13 @@ func c10Replay(cs *c10Case) (sig, msg string) {
 		case "set":
 			ctxs[e.C-1].Set(e.K, c10Val(e.V))
 		}
+		// observers run between the operations too: reading must not change anything
+		for _, cx := range ctxs {
+			for _, k := range c10Keys {
+				cx.Value(k)
+				cx.Has(k)
+			}
+		}
 	}
 	if len(ctxs) != len(cs.Table) {
 		return "harness", "table size mismatch"
